@@ -70,8 +70,12 @@ def explore(desc, tier, scratch=None, max_violations=3):
                 violations.append(_mk_violation(world, j, rec['diff'], None, oc, history))
             if oc[0] != 'returned' and win is not None:
                 nontrivial.add(util.canon([entry, entry_state, _cfg_class(inv), oc[1:]]))
+            blocked, owin = inject.other_windows(m)
+            if owin:
+                st['probes']['other_variable_mutated_by_code_under_test'] = \
+                    st['probes'].get('other_variable_mutated_by_code_under_test', 0) + 1
             plan, nl1, nl2 = driver.plan_faults(events, r, l1, win, inv, tier, entry,
-                                                   agg=world.w['plots'] != 'stub')
+                                                   agg=world.w['plots'] != 'stub', blocked=blocked, owin=owin)
             st['l1_sites'] += nl1
             st['l2_sites'] += nl2
             tr = {'j': j, 'entry': entry, 'n_events': len(events), 'r': r, 'win': win,
@@ -349,7 +353,7 @@ def _renumber_par(c):
 # ---------------------------------------------------------------------------
 TIERS = {
     'quick': {'runs': 96, 'deadline': 100.0, 'min_runs': 24},
-    'thorough': {'runs': 1600, 'deadline': 1500.0, 'min_runs': 200},
+    'thorough': {'runs': 640, 'deadline': 2700.0, 'min_runs': 100},
 }
 
 RULE = ("One run = one seeded world (synthetic spectro + photo survey trees with storage damage, "
